@@ -24,6 +24,24 @@ REPO = os.environ.get("CMINX_SA_REPO", "/repo")
 sys.path.insert(0, HERE)
 from variants import VARIANTS  # noqa: E402
 
+ALL = [f"C{n:02d}" for n in range(1, 21)]
+import glob as _glob
+for _p in sorted(_glob.glob(os.path.join(HERE, "benign_patches", "*.diff"))):
+    # behaviour-preserving refactorings written by independent agents (each verified by the 69 tests and a differential
+    # run over several hundred scenarios): every check must stay silent on them
+    VARIANTS.append(dict(id="refactor-" + os.path.basename(_p)[:-5], kind="benign", props=ALL, edits=[], patch=_p))
+for _d in sorted(_glob.glob(os.path.join(VERIF, "seeded", "*"))):
+    # regressions seeded by independent agents: the check of the property they break must fire
+    try:
+        _m = json.load(open(os.path.join(_d, "meta.json")))
+    except Exception:
+        continue
+    if _m.get("caught_by_own_property_check") and _m.get("property"):
+        _rules = sorted({r for k, v in _m.get("checks_fired", {}).items() if k.startswith(_m["property"] + "/quick") for r in v["rules"]})
+        if _rules:
+            VARIANTS.append(dict(id="seeded-" + os.path.basename(_d), kind="break", props=[_m["property"]], rules=_rules, edits=[],
+                                 patch=os.path.join(_d, "patch.diff")))
+
 COPY = ["src", "cmake", "pyproject.toml"]
 
 
@@ -38,6 +56,10 @@ def run_variant(v):
             else:
                 os.makedirs(os.path.dirname(d), exist_ok=True)
                 shutil.copy(s, d)
+        if v.get("patch"):
+            r = subprocess.run(["git", "apply", "--whitespace=nowarn", v["patch"]], cwd=os.path.join(tmp, "repo"), capture_output=True, text=True)
+            if r.returncode != 0:
+                return v, "EDIT-FAILED", "patch does not apply: " + r.stderr[:120], 0.0
         for rel, old, new in v["edits"]:
             p = os.path.join(tmp, "repo", rel)
             src = open(p, encoding="utf-8").read()
